@@ -4,10 +4,13 @@
 #include "vk.hpp"
 #include <memory>
 #include <iterator>
+#include <set>
 
 namespace vk {
 
-struct PtrStats { long derefs = 0, oob = 0, null_deref = 0, mixed = 0; };
+struct PtrStats { long derefs = 0, oob = 0, null_deref = 0, mixed = 0, released = 0; };
+// blocks handed back to the checking allocator and not handed out again: a pointer whose provenance is such a block must not be dereferenced
+inline std::set<std::pair<std::uintptr_t, std::uintptr_t>>& released_blocks() { static std::set<std::pair<std::uintptr_t, std::uintptr_t>> s; return s; }
 inline PtrStats& pstats() { static PtrStats s; return s; }
 inline void ptr_violation(char const* sym, std::string const& detail) { if(st().case_viol == 0) violation(std::string("C11:checked_ptr:") + sym, detail, false); }
 
@@ -27,6 +30,7 @@ template<class T, bool CHK> struct fptr {
 	void check(std::uintptr_t a) const {
 		++pstats().derefs; if constexpr(CHK) {
 			if(a == 0 || (lo_ == 0 && hi_ == 0)) { ++pstats().null_deref; ptr_violation("null-dereference", "a null / storage-less fancy pointer was dereferenced"); }
+			else if(!released_blocks().empty() && released_blocks().count({lo_, hi_})) { ++pstats().released; ptr_violation("dereference-into-released-block", "a pointer into a block that was already returned to the allocator was dereferenced (offset " + std::to_string(long(a) - long(lo_)) + " bytes)"); }
 			else if(a < lo_ || a + sizeof(S) > hi_) { ++pstats().oob; ptr_violation("out-of-bounds-dereference", "dereference at offset " + std::to_string(long(a) - long(lo_)) + " bytes of a block of " + std::to_string(hi_ - lo_) + " bytes"); } } }
 	template<class TT = T, std::enable_if_t<!std::is_void_v<TT>, int> = 0> std::add_lvalue_reference_t<TT> operator*() const { check(a_); return *reinterpret_cast<TT*>(a_); }
 	template<class TT = T, std::enable_if_t<!std::is_void_v<TT>, int> = 0> std::add_lvalue_reference_t<TT> operator[](difference_type n) const { return *(*this + n); }
@@ -49,9 +53,13 @@ template<class T, bool CHK> struct fptr {
 template<class T, bool CHK> struct falloc {
 	using value_type = T; using pointer = fptr<T, CHK>; using const_pointer = fptr<T const, CHK>; using void_pointer = fptr<void, CHK>; using const_void_pointer = fptr<void const, CHK>; using size_type = std::size_t; using difference_type = std::ptrdiff_t;
 	falloc() = default; template<class U> falloc(falloc<U, CHK> const&) {}  // NOLINT
-	pointer allocate(size_type n) { T* p = std::allocator<T>{}.allocate(n); return pointer{typename pointer::raw_t{}, p, p, p + n}; }
+	pointer allocate(size_type n) { T* p = std::allocator<T>{}.allocate(n);
+		if constexpr(CHK) { auto& rb = released_blocks(); auto lo = reinterpret_cast<std::uintptr_t>(p), hi = reinterpret_cast<std::uintptr_t>(p + n); for(auto it = rb.begin(); it != rb.end();) { if(it->first < hi && lo < it->second) it = rb.erase(it); else ++it; } if(rb.size() > 4096) rb.clear(); }
+		return pointer{typename pointer::raw_t{}, p, p, p + n}; }
 	pointer allocate(size_type n, const_void_pointer /*hint*/) { return allocate(n); }
-	void deallocate(pointer p, size_type n) { if(p.a_ == 0) { if(n != 0) ptr_violation("deallocate-null", "deallocate(nullptr, n != 0)"); return; } std::allocator<T>{}.deallocate(reinterpret_cast<T*>(p.a_), n); }
+	void deallocate(pointer p, size_type n) { if(p.a_ == 0) { if(n != 0) ptr_violation("deallocate-null", "deallocate(nullptr, n != 0)"); return; }
+		if constexpr(CHK) { if(released_blocks().count({p.lo_, p.hi_})) { ptr_violation("deallocate-of-released-block", "a block was returned to the allocator twice"); return; } if(p.a_ != p.lo_ || p.hi_ - p.lo_ != n * sizeof(T)) ptr_violation("deallocate-mismatch", "deallocate(p, n) with a pointer / count that allocate did not produce"); if(n != 0) released_blocks().insert({p.lo_, p.hi_}); }
+		std::allocator<T>{}.deallocate(reinterpret_cast<T*>(p.a_), n); }
 	template<class U> struct rebind { using other = falloc<U, CHK>; };
 	friend bool operator==(falloc const&, falloc const&) { return true; } friend bool operator!=(falloc const&, falloc const&) { return false; }
 };
